@@ -21,6 +21,44 @@ def lexicon(ctx, modname, afs):
     return m, env['registers'], env['segments']
 
 
+def ptrformula_rule(ctx, R3, X):
+    """`SIZE PTR seg:[formula]` (the form the renderer prints): the grammar action is evaluated on every segment x address shape, including base + scaled index with ebp / esp as the
+    base written as one coefficient ([ebp+ebp*2] is {ebp: 3}).  Shared with C09.D12: the Intel rendering of a ds: override on an ss-relative address must assemble back with its prefix."""
+    from ..consteval import Evaluator, NotConst
+    pa = ctx.mod('parse_ad')
+    afs, E = X.afs, X.env
+    ptr2 = pa.funcs.get('p_ptrformula_2')
+    if ptr2 is None:
+        raise AnalysisError('parse_ad.p_ptrformula_2 not found')
+    for seg in range(6):
+        for regs, label in (({0: 1}, '[eax]'), ({5: 1}, '[ebp]'), ({4: 1}, '[esp]'), ({0: 1, 5: 1}, '[eax+ebp]'), ({}, '[disp]'), ({5: 3}, '[ebp+ebp*2]'), ({5: 5}, '[ebp+ebp*4]'),
+                            ({5: 9}, '[ebp+ebp*8]'), ({5: 1, 0: 4}, '[ebp+eax*4]'), ({4: 1, 0: 2}, '[esp+eax*2]'), ({4: 1, 5: 8}, '[esp+ebp*8]'), ({0: 1, 1: 2}, '[eax+ecx*2]')):
+            formula = dict(regs)
+            formula.update({afs.ad: True, afs.size: True})
+            if not regs:
+                formula[afs.imm] = 16
+            t = [None, {afs.ad: afs.u32}, {afs.segm: seg}, formula]
+            ev_ = Evaluator(dict(E, x86_afs=afs))
+            try:
+                ev_.call_user(ptr2, [t])
+            except NotConst as e:
+                raise AnalysisError('parse_ad.p_ptrformula_2 not evaluable: %s' % e)
+            res = t[0]
+            inst = 'ptrformula DWORD PTR %s:%s' % (list(afs.reg_sg)[seg], label)
+            problems = []
+            if res.get(afs.ad) != afs.u32:
+                problems.append('the PTR size is lost (ad = %r)' % res.get(afs.ad))
+            need_seg = seg != 3 or 4 in regs or 5 in regs
+            if need_seg and res.get(afs.segm) != seg:
+                problems.append('the %s: override is dropped although the default segment of %s is %s' % (list(afs.reg_sg)[seg], label, 'ss' if (4 in regs or 5 in regs) else 'ds'))
+            if problems:
+                R3.violation(inst, 'ptrformula:%s:%s' % ('ds' if seg == 3 else 'seg', ';'.join(problems)[:50]), 'parsing "%s": %s' % (inst[11:], '; '.join(problems)), where(pa, ptr2),
+                             witness="asm('push DWORD PTR fs:[eax]') == []" if 'size' in problems[0] else "3e 8b 45 00 re-assembles to 8b 45 00")
+            else:
+                R3.ok(inst, sample='%s keeps size%s' % (inst, ' and segment' if need_seg else ''), nontrivial=(seg in (3, 4)))
+
+
+
 def string_trip_rule(ctx, R5, X=None):
     """A segment override of movs/cmps/lods survives rendering and re-assembly (shared with C09: both syntaxes go through normalize_args)."""
     X = X or x86model(ctx)
@@ -394,34 +432,7 @@ def run(ctx, report):
         else:
             R3.violation('segm-prefix', 'segm-prefix:skipped', 'asm_candidates skips the segment prefix on some path (%s): the segm key stays in the operand and no encoding matches'
                          % (norm(where_)[:70] if where_ is not None else 'no prefix.append'), where(arch, n), witness="asm('inc DWORD PTR es:[edi]') == []")
-    ptr2 = pa.funcs.get('p_ptrformula_2')
-    if ptr2 is None:
-        raise AnalysisError('parse_ad.p_ptrformula_2 not found')
-    for seg in range(6):
-        for regs, label in (({0: 1}, '[eax]'), ({5: 1}, '[ebp]'), ({4: 1}, '[esp]'), ({0: 1, 5: 1}, '[eax+ebp]'), ({}, '[disp]')):
-            formula = dict(regs)
-            formula.update({afs.ad: True, afs.size: True})
-            if not regs:
-                formula[afs.imm] = 16
-            t = [None, {afs.ad: afs.u32}, {afs.segm: seg}, formula]
-            ev_ = Evaluator(dict(E, x86_afs=afs))
-            try:
-                ev_.call_user(ptr2, [t])
-            except NotConst as e:
-                raise AnalysisError('parse_ad.p_ptrformula_2 not evaluable: %s' % e)
-            res = t[0]
-            inst = 'ptrformula DWORD PTR %s:%s' % (list(afs.reg_sg)[seg], label)
-            problems = []
-            if res.get(afs.ad) != afs.u32:
-                problems.append('the PTR size is lost (ad = %r)' % res.get(afs.ad))
-            need_seg = seg != 3 or 4 in regs or 5 in regs
-            if need_seg and res.get(afs.segm) != seg:
-                problems.append('the %s: override is dropped although the default segment of %s is %s' % (list(afs.reg_sg)[seg], label, 'ss' if (4 in regs or 5 in regs) else 'ds'))
-            if problems:
-                R3.violation(inst, 'ptrformula:%s:%s' % ('ds' if seg == 3 else 'seg', ';'.join(problems)[:50]), 'parsing "%s": %s' % (inst[11:], '; '.join(problems)), where(pa, ptr2),
-                             witness="asm('push DWORD PTR fs:[eax]') == []" if 'size' in problems[0] else "3e 8b 45 00 re-assembles to 8b 45 00")
-            else:
-                R3.ok(inst, sample='%s keeps size%s' % (inst, ' and segment' if need_seg else ''), nontrivial=(seg in (3, 4)))
+    ptrformula_rule(ctx, R3, X)
 
     R4 = report.rule('C03.D4', 'the operand renderer emits displacement, symbol and segment exactly once on every path', floor=6)
     from ..linear import Linear
